@@ -395,8 +395,10 @@ class SimplePatternMatcher(PatternMatcher):
             pattern_output_nodes = self.pattern.output_nodes
             op_to_nodes: dict[tuple[str, str, str], list[ir.Node]] = {}
             for n in graph_or_function:
-                op_to_nodes.setdefault(n.op_identifier(), []).append(n)
-            all_nodes = iter(graph_or_function)
+                # NodePattern.matches ignores the overload, so candidates are keyed without it.
+                op_to_nodes.setdefault((n.domain, n.op_type, ""), []).append(n)
+            # A list, not an iterator: several pattern nodes may share it as their candidates.
+            all_nodes = list(graph_or_function)
 
             def get_nodes(pattern_node):
                 id = pattern_node.op_identifier()
